@@ -413,11 +413,24 @@ def run_batches(run: core.Run, tasks: list[dict], workers: int) -> list[dict]:
     if workers <= 1 or len(tasks) == 1:
         return [process_batch(t) for t in tasks]
     ctx = mp.get_context("spawn")
-    with cf.ProcessPoolExecutor(max_workers=workers, mp_context=ctx) as ex:
-        try:
-            return list(ex.map(process_batch, tasks, timeout=run.size(420, 2400)))
-        except cf.TimeoutError as e:
-            raise core.Infra("batch workers timed out") from e
+    ex = cf.ProcessPoolExecutor(max_workers=workers, mp_context=ctx)
+    try:
+        results = list(ex.map(process_batch, tasks, timeout=run.size(300, 2400)))
+        ex.shutdown(wait=True)
+        return results
+    except cf.TimeoutError as e:
+        # a worker that never returns (e.g. the decorator itself loops) must not keep the check alive
+        procs = list(getattr(ex, "_processes", {}).values())
+        ex.shutdown(wait=False, cancel_futures=True)
+        for p in procs:
+            try:
+                p.kill()
+            except Exception:
+                pass
+        raise core.Infra("batch workers timed out (a batch did not return: decoration, the runtime or the "
+                         "model driver does not terminate on some generated program)") from e
+    except cf.process.BrokenProcessPool as e:
+        raise core.Infra(f"a batch worker died: {e}") from e
 
 
 def _search_child(task: dict, q) -> None:
@@ -554,7 +567,7 @@ def main(run: core.Run) -> None:
         run.coverage.update(evaluations=stats["oracle_evaluations"], distinct_nontrivial=1)
         return
 
-    n_prog = run.size(240, 4000)
+    n_prog = run.size(480, 4000)
     n_inputs = run.size(3, 5)
     drift = core.fingerprint_drift("C01", "onnxscript/_internal/converter.py", FINGERPRINT_FUNCS) + \
         core.fingerprint_drift("C01", "onnxscript/_internal/analysis.py", FINGERPRINT_ANALYSIS)
